@@ -124,7 +124,7 @@ PROPS = {
         "rule": "real ws.WebsocketConnection on a gorilla conn (client- and server-side variants) over a fault-injecting net.Conn on a net.Pipe, raw websocket "
                 "peer with its own frame codec, synctest bubble (virtual ping/pong/write deadlines); sessions of 0..8 in/out messages and ping rounds with: a failure "
                 "at the k-th read / k-th write (error, EOF, short write) for k over the session, peer close frames (no code, 1000, 1001, 4001, 4452, 4500, random), peer EOF, "
-                "local close with/without reason; readers: reacting like ShipConnection (two variants), the real ShipConnection, passive (logged only); checked 75 virtual "
+                "local close with/without reason, local close carried out exactly while the read pump holds the bytes of its k-th socket read (scheduling point between taking a frame from the socket and delivering it); readers: reacting like ShipConnection (two variants), the real ShipConnection, passive (logged only); checked 75 virtual "
                 "seconds later: error reported / not reported, closed-query, nothing delivered afterwards, Close() called on the conn, no pump goroutine left in the bubble; "
                 "distinct = (kind, mode, close code class, reader, side)",
         "floors": {"evaluations": 500, "classes": 40, "counters": {"wsconn:kind:read-fault": 20, "wsconn:kind:write-fault": 20}},
@@ -219,7 +219,7 @@ PROPS = {
     },
     "C18": {
         "level": EXPL,
-        "plan": [{"engine": "hubnet", "perturb": True, "perturb_mode": "sleep", "perturb_scale": 0.5, "timeout": {"quick": 900, "thorough": 5400}, "shards": 12}],
+        "plan": [{"engine": "hubnet", "perturb": True, "perturb_mode": "sleep", "perturb_scale": 1.0, "perturb_focus": "HandleShipHandshakeStateUpdate", "timeout": {"quick": 900, "thorough": 5400}, "shards": 12}],
         "rule": "real hub pairs (see C05) through success, reconnects, disconnects, restarts; at the settled point (900 ms after convergence, > the 500 ms notification delay) the state of the last "
                 "ServicePairingDetailUpdate per SKI must equal PairingDetailForSki; distinct = delivered notification sequences",
         "floors": {"evaluations": 30, "classes": 20},
